@@ -9,7 +9,7 @@ ASSUMPTIONS = ['"accepted exactly when the corresponding quantity would be" is a
                'the unit "seconds x Period" is checked through the value: as_quantity(d).in(Seconds * num / den) == d.count() (a wrong unit would rescale)']
 
 PERIODS = {'nano': (1, 10 ** 9), 'micro': (1, 10 ** 6), 'milli': (1, 1000), 'sec': (1, 1), 'min': (60, 1), 'hour': (3600, 1), 'sixtieth': (1, 60),
-           'ntsc': (1001, 30000), 'day': (86400, 1)}
+           'ntsc': (1001, 30000), 'day': (86400, 1), 'pico': (1, 10 ** 12), 'tera': (10 ** 12, 1), 'odd33': (1, 5000000029)}
 
 
 def dur(rep, p):
@@ -29,7 +29,7 @@ PRE = '#include <chrono>\n#include "au/chrono_interop.hh"\n#include "au/units/se
 def obligations(tier, seed):
     obs = []
     reps = ['i32', 'i64', 'f32', 'f64']
-    ps = list(PERIODS) if tier == 'thorough' else ['nano', 'milli', 'sec', 'min', 'ntsc', 'day']
+    ps = list(PERIODS) if tier == 'thorough' else ['nano', 'milli', 'sec', 'min', 'ntsc', 'day', 'pico', 'tera', 'odd33']
     for rep in reps:
         ct = G.ctype(rep); fp = G.is_fp(rep)
         bits = {'f32': 'vf_f32_bits', 'f64': 'vf_f64_bits'}.get(rep)
@@ -47,13 +47,36 @@ def obligations(tier, seed):
   CHECK(%s, "quantity-converts-back-to-an-equal-duration");
   CHECK(%s, "as_chrono_duration-keeps-value-and-period");
 ''' % (same('%s(c)' % w1.name), same('%s(c)' % w2.name), same('%s(c)' % w3.name))
-            obs.append(Ob(id='C17.roundtrip.%s' % tag, prop='C17', group='C17.%s' % rep, prelude=PRE, wrappers=[w1, w2, w3], inputs=[(ct, 'c')], body=body, fp=fp,
+            obs.append(Ob(id='C17.roundtrip.%s' % tag, prop='C17', group='C17.%s' % tag, prelude=PRE, wrappers=[w1, w2, w3], inputs=[(ct, 'c')], body=body, fp=fp,
                           contract='forall count c:%s (every bit pattern): as_quantity(duration<%s,%d/%d>{c}).in(seconds*%d/%d) == c; implicit Quantity->duration->count == c; '
                                    'as_chrono_duration(q).count() == c with the same Period (static_assert in the lowered wrapper)' % ((ct, ct) + PERIODS[p] + PERIODS[p]),
                           functions_under_contract=('au::as_quantity', 'au::Quantity::operator T (CorrespondingQuantity)', 'au::as_chrono_duration',
                                                     'au::CorrespondingQuantity<std::chrono::duration>::extract_value/construct_from_value')))
+    # supporting static facts, one probe per (rep, period): the unit of as_quantity(d) is quantity-equivalent to seconds x Period, the rep is d's rep,
+    # and as_chrono_duration gives back the same Period (a wrong unit would otherwise only show up as a driver that no longer compiles)
+    for p in ps:
+        n_, d_ = PERIODS[p]
+        for rep in ('i64', 'f64') if tier == 'quick' else reps:
+            D = dur(rep, p); U = unit(p)
+            src = '''#include <chrono>
+#include <type_traits>
+#include "au/chrono_interop.hh"
+#include "au/units/seconds.hh"
+#define VF_STATIC_FACT(c) static_assert(c, "VF_STATIC_FACT")
+using D = %s;
+using Q = decltype(au::as_quantity(D{}));
+VF_STATIC_FACT((std::is_same<typename Q::Rep, %s>::value));
+VF_STATIC_FACT((au::AreUnitsQuantityEquivalent<typename Q::Unit, %s>::value));
+VF_STATIC_FACT((std::is_same<decltype(au::as_chrono_duration(au::make_quantity<%s>(%s{}))), D>::value));
+VF_STATIC_FACT((std::is_convertible<D, au::Quantity<%s, %s>>::value));
+int main() {}
+''' % (D, G.ctype(rep), U, U, G.ctype(rep), U, G.ctype(rep))
+            obs.append(Ob(id='C17.static.%s_%s' % (rep, p), prop='C17', group='C17.static', prelude='', wrappers=[], inputs=[], body=src, kind='S',
+                          contract='static facts: as_quantity(duration<%s, %d/%d>) has rep %s and a unit quantity-equivalent to seconds*%d/%d; as_chrono_duration returns the same Period; '
+                                   'the duration converts implicitly to that quantity type' % (G.ctype(rep), n_, d_, G.ctype(rep), n_, d_),
+                          functions_under_contract=('au::CorrespondingQuantity<std::chrono::duration> (compile-time)',)))
     # mixed duration / quantity operations agree with chrono itself
-    mixed = [('i64', 'milli', 'sec'), ('i64', 'nano', 'milli'), ('i32', 'milli', 'sec'), ('i64', 'sec', 'hour'), ('i64', 'ntsc', 'milli'), ('i32', 'sec', 'min')]
+    mixed = [('i64', 'milli', 'sec'), ('i64', 'nano', 'milli'), ('i64', 'pico', 'nano'), ('i32', 'milli', 'sec'), ('i64', 'sec', 'hour'), ('i64', 'ntsc', 'milli'), ('i32', 'sec', 'min')]
     if tier == 'thorough': mixed += [('i64', 'micro', 'min'), ('i64', 'sixtieth', 'ntsc'), ('i32', 'min', 'hour'), ('i64', 'day', 'sec')]
     for (rep, p1, p2) in mixed:
         ct = G.ctype(rep)
